@@ -468,6 +468,10 @@ func launchGuard(c *an.Ctx, s *sched, rule string) {
 		"launch is not dominated by a test that the stage's status is exactly Waiting")
 	// (ii) gate returned true on the same stage
 	okGate := false
+	if s.gateCall == nil {
+		c.Und(rule, key+":gate", s.launch.Pos(), "the gate %s is not called in the function that launches stages (%s): whether its true result guards the launch cannot be established by dominance", an.Short(s.gate), an.Short(s.launchFn))
+		return
+	}
 	if s.gateCall != nil {
 		sameStage := false
 		for _, a := range s.gateCall.Call.Args {
